@@ -54,7 +54,7 @@ def run(chk):
         chk.evaluations += 1
         chk.count("schedules")
         chk.nontriv(c)
-        if a.startswith(("PANIC", "CRASH", "TIMEOUT")):
+        if a.startswith(("PANIC", "CRASH", "TIMEOUT", "HANG")):
             chk.monitor_fail("panic while replaying a mutual-dial schedule", dict(case=c, impl=a))
             continue
         f = dict(x.split("=") for x in a.split())
